@@ -175,7 +175,8 @@ VECTOR_BAGS = [
 
 
 def harnesses(tier):
-    out = []
+    import gen_extra_np
+    out = [gen_extra_np.dtypes(t) for t in cat.unit() + cat.deep()[:6] if t.name != "Count"]
     units = cat.unit()
     for n, e in VECTOR_BAGS:   # value ranges the catalogue's scalar Bag does not reach (vector keys with NaN/inf components)
         t = cat.Tree(n, e)
